@@ -400,14 +400,16 @@ PROPS["C17"] = dict(
               "Kust.C17.struct_fields_covered", "Kust.C17.field_names_match_keys",
               "Kust.C17.norm_idem", "Kust.C17.frame", "Kust.C17.frame_ops_field", "Kust.C17.namespace_untouched",
               "Kust.C17.patches_untouched", "Kust.C17.commonLabels_untouched", "Kust.C17.set_namespace_idem", "Kust.C17.mapSet_idem",
-              "Kust.C17.mapDel_mapSet", "Kust.C17.add_remove_resource", "Kust.C17.mapHas_mapSet", "Kust.C17.add_remove_map"],
+              "Kust.C17.mapDel_mapSet", "Kust.C17.add_remove_resource", "Kust.C17.mapHas_mapSet", "Kust.C17.add_remove_map",
+              "Kust.C17.mapGet_mapSet_same", "Kust.C17.mapGet_mapSet_ne", "Kust.C17.mapGet_mapDel_same", "Kust.C17.mapGet_mapDel_ne",
+              "Kust.C17.mapGet_mapSetAll_frame", "Kust.C17.mapGet_mapSetAll_last"],
     components=["edit.seq", "edit.rewrite"],
     oracle=True,
     n_corr={"quick": 2500, "thorough": 30000}, n_oracle={"quick": 800, "thorough": 10000},
     technique="Lean 4 proof (file rewriter: every comment/blank line of any text is among the written comment blocks in order, every field of the regenerated marshalling order is written once, originals first in original order; typed commands: frame for every command and every command sequence, idempotence and add/remove laws) + Go/Lean correspondence of 23 cobra sub-commands on operation sequences (parsed file vs model state after every step) and of the rewritten bytes + sequence oracle (parses, comments, frame, set twice, add/remove)",
     level_text="PARTIAL. Theorems, for every file text / every state and argument list: no comment or blank line is lost by the rewriter (false before fix C17-F1); "
                "each field is written exactly once; a command differs from the normalised content it read only in the field it addresses, and so does any sequence; "
-               "set-namespace and map-set are idempotent; add-then-remove of a resource / map key restores the content. The YAML rendering and re-parsing of a field "
+               "set-namespace and map-set are idempotent; add-then-remove of a resource / map key restores the content; the label/annotation map refines a key→value function (set/remove/set-all change exactly the named keys, the last pair for a key wins). The YAML rendering and re-parsing of a field "
                "(sigs.k8s.io/yaml) is a parameter: its interaction with relocated comments is where findings C17-K1/K2 live, and is covered by the oracle only.",
     level_note=COMMON_NOTE + "Validators of labels/namespaces are no-ops in this tree; generatorOptions, helm and vars fields are outside the generated domain.",
     assumptions=["one field's YAML text is opaque (third-party marshaller)", "ASCII field lines (Unicode case folding of the line matcher not modelled)"],
